@@ -9,7 +9,7 @@ count, any announced pending timeout), every handle state (any request id, any b
 length, any retry count), every address / length / data with `a + n ≤ 2^64`, both build
 profiles.  Nothing is bounded.
 
-Vocabulary (defined in `Proofs/`): `runEvents plan ms steps ⟨id, bufLen, txn⟩` is the
+Vocabulary (defined in `Proofs/`): `runEvents plan ms t steps ⟨id, bufLen, txn⟩` is the
 chronological wire log of a run of transactions (`txnEvents`: the command, then per pending
 acknowledge a receive + sleep, then the final receive); `readChunkList` / `writeChunkList`
 are the chunk commands; `wireIds`, `sentOf` project a log to the request ids / command
@@ -26,7 +26,11 @@ variable {σ M : Type} [MemLike M] {dev : Dev σ} {view : σ → View M} {lim : 
 /-- Hypotheses shared by the C06 theorems: the handle is open, has negotiated the device's
 limits, its request id is a u16, and every pending count of the plan is below the retry
 count. -/
-structure Ready (s : St σ) (lim : Limits) (plan : Nat → Nat) (ms : Nat) : Prop where
+structure Ready {M : Type} (view : σ → View M) (s : St σ) (lim : Limits) (plan : Nat → Nat)
+    (ms : Nat) : Prop where
+  /-- the device has nothing queued for the host (no unfetched acknowledge of an earlier,
+  abandoned command; for that situation see C07 `usable_after_error`) -/
+  queue_empty : (view s.d).queue = []
   opened : s.h.opened = true
   maxCmd : s.h.cfg.maxCmd = lim.maxCmd
   maxAck : s.h.cfg.maxAck = lim.maxAck
@@ -54,14 +58,15 @@ def writeSteps (p : Profile) (lim : Limits) (a : Nat) (data : Bytes) : List Step
 the handle open with the same configuration, and the wire log is exactly the run of the
 read's chunk transactions. -/
 theorem read_exact (hc : Conforming dev view lim plan ms) (p : Profile) (s : St σ) (a n : Nat)
-    (hr : Ready s lim plan ms) (hsp : a + n ≤ 2 ^ 64) (hn : n < 2 ^ 64)
+    (hr : Ready view s lim plan ms) (hsp : a + n ≤ 2 ^ 64) (hn : n < 2 ^ 64)
     (hcmd : 24 ≤ lim.maxCmd) (hack : 12 < lim.maxAck) :
     ∃ s', Control.read dev p s a n = (s', .ok (readRange (view s.d).mem a n)) ∧
       (view s'.d).mem = (view s.d).mem ∧ s'.h.cfg = s.h.cfg ∧ s'.h.opened = true ∧
-      s'.logRev = (runEvents plan ms (readSteps (view s.d).mem lim a n)
+      (view s'.d).queue = [] ∧
+      s'.logRev = (runEvents plan ms s.h.cfg.timeoutMs (readSteps (view s.d).mem lim a n)
           ⟨s.h.nextReqId, s.h.bufLen, (view s.d).txn⟩).1.reverse ++ s.logRev ∧
       (⟨s'.h.nextReqId, s'.h.bufLen, (view s'.d).txn⟩ : Prog) =
-        (runEvents plan ms (readSteps (view s.d).mem lim a n)
+        (runEvents plan ms s.h.cfg.timeoutMs (readSteps (view s.d).mem lim a n)
           ⟨s.h.nextReqId, s.h.bufLen, (view s.d).txn⟩).2 := by
   have hm : Cmd.maximumReadLength p lim.maxAck = .ok (readChunk lim) := by
     rw [C10.maximumReadLength_ok p lim.maxAck (by simp only [Cmd.ACK_HEADER_LENGTH]; omega)]
@@ -69,10 +74,11 @@ theorem read_exact (hc : Conforming dev view lim plan ms) (p : Profile) (s : St 
   have hmpos : 0 < readChunk lim := by simp only [readChunk]; omega
   have hm16 : readChunk lim < 2 ^ 16 := by simp only [readChunk]; omega
   have hmack : 12 + readChunk lim ≤ lim.maxAck := by simp only [readChunk]; omega
-  obtain ⟨s', hs', hmem, _, hcfg, hop, _, hlog, hpr⟩ :=
+  obtain ⟨s', hs', hmem, hq, hcfg, hop, _, hlog, hpr⟩ :=
     readLoop_conforming hc p (readChunk lim) a hmpos hm16 hmack hcmd hr.ms16 s.h.cfg.retry
-      hr.plan_lt_retry (n + 1) 0 n s [] (by omega) (by omega) (by omega) hr.id16 rfl
-  refine ⟨s', ?_, hmem, hcfg, by rw [hop]; exact hr.opened, hlog, hpr⟩
+      hr.plan_lt_retry s.h.cfg.timeoutMs lim.maxCmd hcmd (n + 1) 0 n s [] (by omega) (by omega)
+      (by omega) hr.id16 rfl hr.maxCmd rfl hr.queue_empty
+  refine ⟨s', ?_, hmem, hcfg, by rw [hop]; exact hr.opened, hq, hlog, hpr⟩
   have hva : verifyAddressRange a n = .ok () := by
     simp only [verifyAddressRange]
     by_cases h0 : n = 0
@@ -95,21 +101,23 @@ negotiated `maxCmd > 20` and `maxAck ≥ 16` (a WriteMem acknowledge is 16 bytes
 pending plan below the retry count and every initial request id, `write(a, data)` succeeds
 and the device memory afterwards is the old memory with `data` stored at `a`. -/
 theorem write_exact (hc : Conforming dev view lim plan ms) (p : Profile) (s : St σ) (a : Nat)
-    (data : Bytes) (hr : Ready s lim plan ms) (hsp : a + data.length ≤ 2 ^ 64)
+    (data : Bytes) (hr : Ready view s lim plan ms) (hsp : a + data.length ≤ 2 ^ 64)
     (hn : data.length < 2 ^ 64) (hcmd : 20 < lim.maxCmd) (hu32 : lim.maxCmd < 2 ^ 32)
     (hack : 16 ≤ lim.maxAck) :
     ∃ s', write dev p s a data = (s', .ok ()) ∧
       (view s'.d).mem = writeRange (view s.d).mem a data ∧ s'.h.cfg = s.h.cfg ∧
       s'.h.opened = true ∧
-      s'.logRev = (runEvents plan ms (writeSteps p lim a data)
+      (view s'.d).queue = [] ∧
+      s'.logRev = (runEvents plan ms s.h.cfg.timeoutMs (writeSteps p lim a data)
           ⟨s.h.nextReqId, s.h.bufLen, (view s.d).txn⟩).1.reverse ++ s.logRev ∧
       (⟨s'.h.nextReqId, s'.h.bufLen, (view s'.d).txn⟩ : Prog) =
-        (runEvents plan ms (writeSteps p lim a data)
+        (runEvents plan ms s.h.cfg.timeoutMs (writeSteps p lim a data)
           ⟨s.h.nextReqId, s.h.bufLen, (view s.d).txn⟩).2 := by
-  obtain ⟨s', hs', hmem, hcfg, hop, _, hlog, hpr⟩ :=
+  obtain ⟨s', hs', hmem, hq, hcfg, hop, _, hlog, hpr⟩ :=
     writeBlockLoop_conforming hc p a hcmd (by omega) hack hr.ms16 s.h.cfg.retry hr.plan_lt_retry
-      (data.length + 1) 0 data s (by omega) (by omega) (by omega) hr.id16 rfl
-  refine ⟨s', ?_, by simpa using hmem, hcfg, by rw [hop]; exact hr.opened, hlog, hpr⟩
+      s.h.cfg.timeoutMs (data.length + 1) 0 data s (by omega) (by omega) (by omega) hr.id16 rfl
+      hr.maxCmd rfl hr.queue_empty
+  refine ⟨s', ?_, by simpa using hmem, hcfg, by rw [hop]; exact hr.opened, hq, hlog, hpr⟩
   have hva : verifyAddressRange a data.length = .ok () := by
     simp only [verifyAddressRange]
     by_cases h0 : data.length = 0
@@ -121,7 +129,7 @@ theorem write_exact (hc : Conforming dev view lim plan ms) (p : Profile) (s : St
 /-- **write_exact, pointwise**: after the write, byte `a+i` holds `data[i]` and every byte
 outside `[a, a+|data|)` is unchanged — exactly the requested range is modified. -/
 theorem write_exact_pointwise (hc : Conforming dev view lim plan ms) (p : Profile) (s : St σ)
-    (a : Nat) (data : Bytes) (hr : Ready s lim plan ms) (hsp : a + data.length ≤ 2 ^ 64)
+    (a : Nat) (data : Bytes) (hr : Ready view s lim plan ms) (hsp : a + data.length ≤ 2 ^ 64)
     (hn : data.length < 2 ^ 64) (hcmd : 20 < lim.maxCmd) (hu32 : lim.maxCmd < 2 ^ 32)
     (hack : 16 ≤ lim.maxAck) :
     (write dev p s a data).2 = .ok () ∧
@@ -139,29 +147,100 @@ theorem write_exact_pointwise (hc : Conforming dev view lim plan ms) (p : Profil
     simp only [hmem]
     exact get_writeRange_outside _ _ _ _ hx
 
-/-- a read after a write returns the written data (composition of the two exactness
-theorems through the device memory). -/
-theorem read_after_write (hc : Conforming dev view lim plan ms) (p : Profile) (s : St σ)
-    (a : Nat) (data : Bytes) (hr : Ready s lim plan ms) (hsp : a + data.length ≤ 2 ^ 64)
-    (hn : data.length < 2 ^ 64) (hcmd : 24 ≤ lim.maxCmd) (hu32 : lim.maxCmd < 2 ^ 32)
-    (hack : 16 ≤ lim.maxAck) :
-    (Control.read dev p (write dev p s a data).1 a data.length).2 = .ok data := by
-  obtain ⟨s1, hs1, hmem, hcfg, hop, _, hpr⟩ :=
-    write_exact hc p s a data hr hsp hn (by omega) hu32 hack
+/-- **Ready is preserved by read**: after an exact read the handle / device pair satisfies the
+hypotheses of all C06 theorems again (open, same limits, u16 id, nothing queued) — so the
+theorems compose over any history of reads and writes. -/
+theorem ready_after_read (hc : Conforming dev view lim plan ms) (p : Profile) (s : St σ)
+    (a n : Nat) (hr : Ready view s lim plan ms) (hsp : a + n ≤ 2 ^ 64) (hn : n < 2 ^ 64)
+    (hcmd : 24 ≤ lim.maxCmd) (hack : 12 < lim.maxAck) :
+    Ready view (Control.read dev p s a n).1 lim plan ms := by
+  obtain ⟨s1, hs1, _, hcfg, hop, hq, _, hpr⟩ := read_exact hc p s a n hr hsp hn hcmd hack
+  rw [hs1]
   have hid1 : s1.h.nextReqId < 2 ^ 16 := by
     have h := congrArg Prog.id hpr
     simp only at h
     rw [h]
-    rcases runEvents_final plan ms (writeSteps p lim a data)
+    rcases runEvents_final plan ms s.h.cfg.timeoutMs (readSteps (view s.d).mem lim a n)
       ⟨s.h.nextReqId, s.h.bufLen, (view s.d).txn⟩ with h2 | h2
     · rw [h2]; exact Nat.mod_lt _ (by omega)
     · rw [h2]; simp only [runEvents]; exact hr.id16
-  have hr1 : Ready s1 lim plan ms :=
-    ⟨hop, by rw [hcfg]; exact hr.maxCmd, by rw [hcfg]; exact hr.maxAck, hid1, hr.ms16,
-      by rw [hcfg]; exact hr.plan_lt_retry⟩
-  obtain ⟨s2, hs2, _⟩ := read_exact hc p s1 a data.length hr1 hsp hn hcmd (by omega)
+  exact ⟨hq, hop, by rw [hcfg]; exact hr.maxCmd, by rw [hcfg]; exact hr.maxAck, hid1, hr.ms16,
+    by rw [hcfg]; exact hr.plan_lt_retry⟩
+
+/-- **Ready is preserved by write**. -/
+theorem ready_after_write (hc : Conforming dev view lim plan ms) (p : Profile) (s : St σ)
+    (a : Nat) (data : Bytes) (hr : Ready view s lim plan ms) (hsp : a + data.length ≤ 2 ^ 64)
+    (hn : data.length < 2 ^ 64) (hcmd : 20 < lim.maxCmd) (hu32 : lim.maxCmd < 2 ^ 32)
+    (hack : 16 ≤ lim.maxAck) :
+    Ready view (write dev p s a data).1 lim plan ms := by
+  obtain ⟨s1, hs1, _, hcfg, hop, hq, _, hpr⟩ := write_exact hc p s a data hr hsp hn hcmd hu32 hack
   rw [hs1]
-  simp only [hs2, hmem, readRange_writeRange_same]
+  have hid1 : s1.h.nextReqId < 2 ^ 16 := by
+    have h := congrArg Prog.id hpr
+    simp only at h
+    rw [h]
+    rcases runEvents_final plan ms s.h.cfg.timeoutMs (writeSteps p lim a data)
+      ⟨s.h.nextReqId, s.h.bufLen, (view s.d).txn⟩ with h2 | h2
+    · rw [h2]; exact Nat.mod_lt _ (by omega)
+    · rw [h2]; simp only [runEvents]; exact hr.id16
+  exact ⟨hq, hop, by rw [hcfg]; exact hr.maxCmd, by rw [hcfg]; exact hr.maxAck, hid1, hr.ms16,
+    by rw [hcfg]; exact hr.plan_lt_retry⟩
+
+/-- a read after a write returns the written data (composition of the two exactness
+theorems through `Ready` and the device memory). -/
+theorem read_after_write (hc : Conforming dev view lim plan ms) (p : Profile) (s : St σ)
+    (a : Nat) (data : Bytes) (hr : Ready view s lim plan ms) (hsp : a + data.length ≤ 2 ^ 64)
+    (hn : data.length < 2 ^ 64) (hcmd : 24 ≤ lim.maxCmd) (hu32 : lim.maxCmd < 2 ^ 32)
+    (hack : 16 ≤ lim.maxAck) :
+    (Control.read dev p (write dev p s a data).1 a data.length).2 = .ok data := by
+  have hr1 := ready_after_write hc p s a data hr hsp hn (by omega) hu32 hack
+  obtain ⟨s1, hs1, hmem, _⟩ := write_exact hc p s a data hr hsp hn (by omega) hu32 hack
+  obtain ⟨s2, hs2, _⟩ := read_exact hc p _ a data.length hr1 hsp hn hcmd (by omega)
+  rw [hs2, hs1]
+  simp only [hmem, readRange_writeRange_same]
+
+/-- **read respects maxCmd**: a ReadMem command is 24 bytes; when the negotiated maximum
+command length is smaller, `read` of a non-empty buffer returns an error and puts NOTHING on
+the wire (state and log unchanged) — whatever the device is.  Together with
+`wire_within_limits_read` (`maxCmd ≥ 24`): for every negotiated `maxCmd`, no command longer
+than `maxCmd` is ever sent by `read`. -/
+theorem read_refused_small_maxCmd {σ' : Type} (dev' : Dev σ') (p : Profile) (s : St σ')
+    (a n : Nat) (ha : a < 2 ^ 64) (hn : 0 < n) (hsmall : s.h.cfg.maxCmd < 24) :
+    ∃ e, Control.read dev' p s a n = (s, .err e) := by
+  unfold Control.read
+  by_cases hop : (!s.h.opened) = true
+  · exact ⟨_, by rw [if_pos hop]⟩
+  · rw [if_neg hop]
+    by_cases hv : a + (n - 1) < 2 ^ 64
+    · have hva : verifyAddressRange a n = .ok () := by
+        simp only [verifyAddressRange]; rw [if_neg (by omega), if_pos hv]
+      simp only [hva]
+      have h12 : Cmd.ACK_HEADER_LENGTH = 12 := rfl
+      by_cases hack : s.h.cfg.maxAck ≤ 12
+      · have : (Cmd.ReadMem.mk a 0).chunks s.h.cfg.maxAck = .err .invalidPacket := by
+          simp only [Cmd.ReadMem.chunks]; rw [if_pos (by omega)]
+        exact ⟨_, by simp only [this]; rfl⟩
+      · have hch : (Cmd.ReadMem.mk a 0).chunks s.h.cfg.maxAck =
+            .ok ⟨a, 0, s.h.cfg.maxAck - Cmd.ACK_HEADER_LENGTH⟩ := by
+          simp only [Cmd.ReadMem.chunks]; rw [if_neg (by omega)]
+        have hm : Cmd.maximumReadLength p s.h.cfg.maxAck =
+            .ok (min (s.h.cfg.maxAck - 12) 65535) := by
+          rw [C10.maximumReadLength_ok p s.h.cfg.maxAck (by omega)]; rfl
+        have hmpos : min (s.h.cfg.maxAck - 12) 65535 ≠ 0 := by omega
+        simp only [hch, hm, if_neg hmpos]
+        refine ⟨.io, ?_⟩
+        rw [readLoop]
+        have hgt : ¬ min (min (s.h.cfg.maxAck - 12) 65535) n > U16_MAX := by
+          simp only [U16_MAX]; omega
+        have hadd : (addW p 64 a 0 : R Nat) = .ok a := by
+          simp only [addW, Nat.add_zero]; rw [if_pos ha]
+        have hguard : (Cmd.Cmd.readMem ⟨a, min (min (s.h.cfg.maxAck - 12) 65535) n⟩).cmdLen >
+            s.h.cfg.maxCmd := by
+          simp only [Cmd.Cmd.cmdLen, Cmd.Cmd.scdLen, Cmd.CCD_LEN]; omega
+        simp only [if_neg (Nat.ne_of_gt hn), if_neg hgt, hadd, sendCmd, if_pos hguard]
+    · have hva : verifyAddressRange a n = .err .invalidData := by
+        simp only [verifyAddressRange]; rw [if_neg (by omega), if_neg hv]
+      exact ⟨_, by simp only [hva]; rfl⟩
 
 /-! ## 3. wire_within_limits -/
 
@@ -170,11 +249,11 @@ theorem read_after_write (hc : Conforming dev view lim plan ms) (p : Profile) (s
 the receive buffer (`maximum_ack_len` of its command — nothing is truncated) and — when
 `maxAck ≥ 16` or the device sends no pending acknowledges (a pending acknowledge is 16
 bytes) — the negotiated maximum acknowledge length; no transfer fails. -/
-theorem wire_within_limits_read (mem : M) (lim : Limits) (plan : Nat → Nat) (ms a n : Nat)
+theorem wire_within_limits_read (mem : M) (lim : Limits) (plan : Nat → Nat) (ms t a n : Nat)
     (pr : Prog) (hcmd : 24 ≤ lim.maxCmd) (hack : 12 < lim.maxAck) :
     (∀ c ∈ readChunkList (readChunk lim) a (n + 1) 0 n,
       0 < c.readLength ∧ 12 + c.readLength ≤ lim.maxAck) ∧
-    ∀ e ∈ (runEvents plan ms (readSteps mem lim a n) pr).1,
+    ∀ e ∈ (runEvents plan ms t (readSteps mem lim a n) pr).1,
       EvWithin lim (16 ≤ lim.maxAck ∨ ∀ i, plan i = 0) e := by
   have hmpos : 0 < readChunk lim := by simp only [readChunk]; omega
   have hpart := readChunkList_partition (readChunk lim) a hmpos (n + 1) 0 n (by omega)
@@ -204,10 +283,10 @@ theorem wire_within_limits_read (mem : M) (lim : Limits) (plan : Nat → Nat) (m
 /-- **wire_within_limits (write)**: every command of a write is at most `maxCmd` bytes long;
 every received packet (WriteMem and pending acknowledges are 16 bytes) fits the receive
 buffer and, given `maxAck ≥ 16`, the negotiated maximum acknowledge length. -/
-theorem wire_within_limits_write (p : Profile) (lim : Limits) (plan : Nat → Nat) (ms a : Nat)
+theorem wire_within_limits_write (p : Profile) (lim : Limits) (plan : Nat → Nat) (ms t a : Nat)
     (data : Bytes) (pr : Prog) (hsp : a + data.length ≤ 2 ^ 64) (hcmd : 20 < lim.maxCmd)
     (hu32 : lim.maxCmd < 2 ^ 32) :
-    ∀ e ∈ (runEvents plan ms (writeSteps p lim a data) pr).1, EvWithin lim (16 ≤ lim.maxAck) e := by
+    ∀ e ∈ (runEvents plan ms t (writeSteps p lim a data) pr).1, EvWithin lim (16 ≤ lim.maxAck) e := by
   obtain ⟨_, hok⟩ := writeChunkList_spec p lim a hcmd (by omega) (data.length + 1) 0 data
     (by omega) (by omega)
   apply within_runEvents
@@ -230,42 +309,45 @@ theorem wire_within_limits_write (p : Profile) (lim : Limits) (plan : Nat → Na
 /-! ## 4. ids_sequential -/
 
 /-- **ids_sequential**: in the wire log of any run starting with request id `id0`, the k-th
-command carries `id0 + k mod 2^16`, every acknowledge received for it — the pending ones
-and the final one — carries the same id, and the id advances by exactly one per completed
-transaction (`idsFrom`).  Instantiated below for `read` and `write`. -/
-theorem ids_sequential_read (mem : M) (lim : Limits) (plan : Nat → Nat) (ms a n : Nat) (pr : Prog)
+command SENT carries `id0 + k mod 2^16` — the code draws a fresh id for every command it puts
+on the wire, whatever that command's outcome (C07 `fresh_id_per_command`); in a conforming run
+every command completes, so this is also one id per completed transaction —, every
+acknowledge received for it — the pending ones and the final one — carries the same id
+(`idsFrom`), and afterwards `next_req_id = id0 + #commands mod 2^16`.  Instantiated below for
+`read` and `write`. -/
+theorem ids_sequential_read (mem : M) (lim : Limits) (plan : Nat → Nat) (ms t a n : Nat) (pr : Prog)
     (hid : pr.id < 2 ^ 16) :
-    wireIds (runEvents plan ms (readSteps mem lim a n) pr).1 =
+    wireIds (runEvents plan ms t (readSteps mem lim a n) pr).1 =
       idsFrom plan (readSteps mem lim a n).length pr.id pr.txn ∧
-    (runEvents plan ms (readSteps mem lim a n) pr).2.txn = pr.txn + (readSteps mem lim a n).length ∧
-    ((runEvents plan ms (readSteps mem lim a n) pr).2.id =
+    (runEvents plan ms t (readSteps mem lim a n) pr).2.txn = pr.txn + (readSteps mem lim a n).length ∧
+    ((runEvents plan ms t (readSteps mem lim a n) pr).2.id =
         (pr.id + (readSteps mem lim a n).length) % 2 ^ 16) := by
   refine ⟨?_, runEvents_txn .., ?_⟩
-  · apply wireIds_runEvents _ _ _ _ pr hid
+  · apply wireIds_runEvents _ _ _ _ _ pr hid
     intro st hst id hid'
     simp only [readSteps, List.mem_map] at hst
     obtain ⟨c, _, rfl⟩ := hst
     exact pktId_encodeAck _ _ _ _ hid'
-  · rcases runEvents_final plan ms (readSteps mem lim a n) pr with h | h
+  · rcases runEvents_final plan ms t (readSteps mem lim a n) pr with h | h
     · exact h
     · rw [h]; simp only [runEvents, List.length_nil, Nat.add_zero]
       exact (Nat.mod_eq_of_lt hid).symm
 
-theorem ids_sequential_write (p : Profile) (lim : Limits) (plan : Nat → Nat) (ms a : Nat)
+theorem ids_sequential_write (p : Profile) (lim : Limits) (plan : Nat → Nat) (ms t a : Nat)
     (data : Bytes) (pr : Prog) (hid : pr.id < 2 ^ 16) :
-    wireIds (runEvents plan ms (writeSteps p lim a data) pr).1 =
+    wireIds (runEvents plan ms t (writeSteps p lim a data) pr).1 =
       idsFrom plan (writeSteps p lim a data).length pr.id pr.txn ∧
-    (runEvents plan ms (writeSteps p lim a data) pr).2.txn =
+    (runEvents plan ms t (writeSteps p lim a data) pr).2.txn =
       pr.txn + (writeSteps p lim a data).length ∧
-    ((runEvents plan ms (writeSteps p lim a data) pr).2.id =
+    ((runEvents plan ms t (writeSteps p lim a data) pr).2.id =
         (pr.id + (writeSteps p lim a data).length) % 2 ^ 16) := by
   refine ⟨?_, runEvents_txn .., ?_⟩
-  · apply wireIds_runEvents _ _ _ _ pr hid
+  · apply wireIds_runEvents _ _ _ _ _ pr hid
     intro st hst id hid'
     simp only [writeSteps, List.mem_map] at hst
     obtain ⟨c, _, rfl⟩ := hst
     exact pktId_encodeAck _ _ _ _ hid'
-  · rcases runEvents_final plan ms (writeSteps p lim a data) pr with h | h
+  · rcases runEvents_final plan ms t (writeSteps p lim a data) pr with h | h
     · exact h
     · rw [h]; simp only [runEvents, List.length_nil, Nat.add_zero]
       exact (Nat.mod_eq_of_lt hid).symm
@@ -276,10 +358,10 @@ theorem ids_sequential_write (p : Profile) (lim : Limits) (plan : Nat → Nat) (
 commands, which the independent decoder reads back as `(address, length)` pairs that
 partition `[a, a+n)` exactly: non-empty, contiguous, ascending, each at most the chunk size,
 all but the last of exactly the chunk size (C10's `ReadPartition`). -/
-theorem footprint_read (p : Profile) (mem : M) (lim : Limits) (plan : Nat → Nat) (ms a n : Nat)
+theorem footprint_read (p : Profile) (mem : M) (lim : Limits) (plan : Nat → Nat) (ms t a n : Nat)
     (pr : Prog) (hack : 12 < lim.maxAck) (hsp : a + n ≤ 2 ^ 64) :
     C10.ReadPartition (readChunk lim) a n (readChunkList (readChunk lim) a (n + 1) 0 n) ∧
-    sentOf (runEvents plan ms (readSteps mem lim a n) pr).1 =
+    sentOf (runEvents plan ms t (readSteps mem lim a n) pr).1 =
       serializeFrom (readSteps mem lim a n) pr.id ∧
     ∀ c ∈ readChunkList (readChunk lim) a (n + 1) 0 n, ∀ id, id < 2 ^ 16 →
       decodeCmd ((Cmd.Cmd.readMem c).serialize id) =
@@ -300,11 +382,11 @@ commands; the chunks are non-empty, contiguous from `a`, and their data concaten
 `data` (`Contig`), so the union of the written ranges is exactly `[a, a+|data|)` and every
 byte is written once; the independent decoder reads each command back as its
 `(address, data)`. -/
-theorem footprint_write (p : Profile) (lim : Limits) (plan : Nat → Nat) (ms a : Nat)
+theorem footprint_write (p : Profile) (lim : Limits) (plan : Nat → Nat) (ms t a : Nat)
     (data : Bytes) (pr : Prog) (hsp : a + data.length ≤ 2 ^ 64) (hcmd : 20 < lim.maxCmd)
     (hu32 : lim.maxCmd < 2 ^ 32) :
     Contig a data (writeChunkList p a lim.maxCmd (data.length + 1) 0 data) ∧
-    sentOf (runEvents plan ms (writeSteps p lim a data) pr).1 =
+    sentOf (runEvents plan ms t (writeSteps p lim a data) pr).1 =
       serializeFrom (writeSteps p lim a data) pr.id ∧
     ∀ c ∈ writeChunkList p a lim.maxCmd (data.length + 1) 0 data, ∀ id, id < 2 ^ 16 →
       decodeCmd ((Cmd.Cmd.writeMem c).serialize id) =
@@ -327,9 +409,16 @@ def exDev : Dev (RefState (Nat → UInt8)) :=
 def exState : St (RefState (Nat → UInt8)) :=
   ⟨⟨65535, ⟨1, 3, 64, 64⟩, 0, true, none⟩, ⟨fun a => UInt8.ofNat a, [], 0⟩, []⟩
 
-example : Ready (σ := RefState (Nat → UInt8)) exState ⟨64, 64⟩
+example : Ready (σ := RefState (Nat → UInt8)) refView exState ⟨64, 64⟩
     (fun i => if i % 3 = 0 then 1 else 0) 1 :=
-  ⟨rfl, rfl, rfl, by decide, by decide, by intro i; simp only [exState]; split <;> omega⟩
+  ⟨rfl, rfl, rfl, rfl, by decide, by decide, by intro i; simp only [exState]; split <;> omega⟩
+
+/-- with a negotiated maximum command length of 23 a read is refused and nothing is sent -/
+example : (Control.read exDev .dev
+      { exState with h := { exState.h with cfg := ⟨1, 3, 23, 64⟩ } } 0x1000 4).2 = .err .io ∧
+    (Control.read exDev .dev
+      { exState with h := { exState.h with cfg := ⟨1, 3, 23, 64⟩ } } 0x1000 4).1.logRev.length = 0 := by
+  decide +kernel
 
 /-- a 100-byte read with 52-byte chunks across the id wrap returns the memory pattern -/
 example : (Control.read exDev .dev exState 0x1000 100).2 =
